@@ -409,3 +409,97 @@ Definition near_simplex (tol : Q) (xs : list Q) (s : simplex) : bool :=
   (d =? length xs)%nat && valid_simplex s &&
   forallb (fun p => forallb (fun i => Qle_bool (Qabs (r i - r (hd 0%nat p))) tol) p) (snd s) &&
   chain 1 levels && Qle_bool (Qabs (last levels 0)) tol.
+
+(* ------------------------------------------------------------------ Ordered_set_partition_iterator as a state machine
+   (Set_partition_iterator: restricted growth strings; Permutation_iterator: mixed-radix counter with the n>=3
+   shortcut), transcribed statement by statement.  [osp_iter n k] is the sequence a fresh iterator enumerates; the
+   set-level model [osp] above is what Coface_iterator's model uses (order of cofaces is free).  UINT_MAX sentinels
+   (max_[0], d_[n-1]) are modelled by excluding the position from the comparison. *)
+Local Open Scope nat_scope.
+(* Set_partition_iterator state: rgs_, max_ *)
+Definition sp_init (n k : nat) : list nat * list nat :=
+  let rgs := map (fun i => if n - k <? i then i - (n - k) else 0) (seq 0 n) in
+  (rgs, 0 :: map S rgs).                       (* max_[0] = UINT_MAX (never consulted), max_[i] = rgs_[i-1] + 1 *)
+Definition sp_value (k : nat) (rgs : list nat) : list (list nat) := map (block_of rgs) (seq 0 k).
+(* while (rgs_[i] + 1 > max_[i] || rgs_[i] + 1 >= k_) i--;   (at i = 0 the first test is against UINT_MAX) *)
+Fixpoint sp_scan (fuel : nat) (k : nat) (rgs mx : list nat) (i : nat) : nat :=
+  match fuel with
+  | O => i
+  | S f => if ((negb (i =? 0)) && (nthn mx i <? nthn rgs i + 1)) || (k <=? nthn rgs i + 1)
+           then sp_scan f k rgs mx (i - 1) else i
+  end.
+(* while (++i < n_) { rgs_[i] = 0; max_[i + 1] = mm; } *)
+Fixpoint sp_zero (fuel : nat) (n mm : nat) (rgs mx : list nat) (i : nat) : list nat * list nat :=
+  match fuel with
+  | O => (rgs, mx)
+  | S f => if i <? n then sp_zero f n mm (setn rgs i 0) (setn mx (S i) mm) (S i) else (rgs, mx)
+  end.
+(* do { max_[i] = p; --i; --p; rgs_[i] = p; } while (max_[i] < p); *)
+Fixpoint sp_tail (fuel : nat) (rgs mx : list nat) (i p : nat) : list nat * list nat :=
+  match fuel with
+  | O => (rgs, mx)
+  | S f => let mx := setn mx i p in
+           let i := i - 1 in let p := p - 1 in
+           let rgs := setn rgs i p in
+           if nthn mx i <? p then sp_tail f rgs mx i p else (rgs, mx)
+  end.
+Definition sp_next (n k : nat) (st : list nat * list nat) : option (list nat * list nat) :=
+  let '(rgs, mx) := st in
+  if k <=? 1 then None else
+  let i := sp_scan n k rgs mx (n - 1) in
+  if i =? 0 then None else
+  let rgs := setn rgs i (S (nthn rgs i)) in
+  let mm := nthn mx i in
+  let mm := if mm <=? nthn rgs i then S mm else mm in
+  let mx := setn mx (S i) mm in
+  let '(rgs, mx) := sp_zero n n mm rgs mx (S i) in
+  if mm <? k then Some (sp_tail n rgs mx n k) else Some (rgs, mx).
+
+(* Permutation_iterator state: value_, d_, ct_ *)
+Definition swap_idx (l : list nat) (i j : nat) : list nat :=
+  let a := nthn l i in let b := nthn l j in setn (setn l i b) j a.
+Definition pm_init (n : nat) : list nat * list nat * nat := (seq 0 n, repeat 0 n, 5).
+(* while (d_[j] == j + 1) { d_[j] = 0; ++j; }    (d_[n-1] is the sentinel UINT_MAX) *)
+Fixpoint pm_carry (fuel n : nat) (d : list nat) (j : nat) : list nat * nat :=
+  match fuel with
+  | O => (d, j)
+  | S f => if (negb (j =? n - 1)) && (nthn d j =? j + 1) then pm_carry f n (setn d j 0) (S j) else (d, j)
+  end.
+Definition pm_elementary (n : nat) (value d : list nat) (j0 : nat) : option (list nat * list nat) * list nat :=
+  let '(d, j) := pm_carry n n d j0 in
+  if j =? n - 1 then (None, d)
+  else let k := j + 1 in
+       let x := if Nat.odd k then nthn d j else 0 in
+       (Some (swap_idx value k x, setn d j (S (nthn d j))), d).
+(* returns None at the end; the state after the end (value_ kept, d_ reset, ct_ = 5) is what reinitialize() resumes *)
+Definition pm_next (n : nat) (st : list nat * list nat * nat) : option (list nat * list nat * nat) * (list nat * list nat * nat) :=
+  let '(value, d, ct) := st in
+  if 3 <=? n then
+    if negb (ct =? 0) then let ct := ct - 1 in
+                           let st' := (swap_idx value (1 + Nat.modulo ct 2) 0, d, ct) in (Some st', st')
+    else match pm_elementary n value d 2 with
+         | (None, d') => (None, (value, d', 5))
+         | (Some (v', d'), _) => (Some (v', d', 5), (v', d', 5))
+         end
+  else match pm_elementary n value d 0 with
+       | (None, d') => (None, (value, d', ct))
+       | (Some (v', d'), _) => (Some (v', d', ct), (v', d', ct))
+       end.
+(* Ordered_set_partition::operator[](i) = s_it_ value at index (p_it_ value at i) *)
+Definition osp_value (k : nat) (rgs perm : list nat) : list (list nat) :=
+  let blocks := sp_value k rgs in map (fun i => nth (nthn perm i) blocks []) (seq 0 k).
+Fixpoint osp_run (fuel n k : nat) (sp : list nat * list nat) (pm : list nat * list nat * nat) : list (list (list nat)) :=
+  match fuel with
+  | O => []
+  | S f =>
+    osp_value k (fst sp) (fst (fst pm)) ::
+    match pm_next k pm with
+    | (Some pm', _) => osp_run f n k sp pm'
+    | (None, pm_end) => match sp_next n k sp with
+                        | None => []
+                        | Some sp' => osp_run f n k sp' pm_end      (* p_it_.reinitialize(): only the flag is reset *)
+                        end
+    end
+  end.
+Definition osp_iter (n k : nat) : list (list (list nat)) :=
+  if n =? 0 then [] else osp_run (S (Nat.pow k n)) n k (sp_init n k) (pm_init k).
